@@ -436,6 +436,10 @@ def _c20_shards(tier, seed):
         out.append(dict(bin="c20", flavour="uring", args=["--shard", "%d/%d" % (i, len(cfgs)), "--zc", zc, "--ms", ms, "--cork", ck, "--bufs", b, "--bufsize", sz],
                         timeout=900 if tier == "quick" else 2400, name="c20-zc%d-ms%d-ck%d-%dx%d" % (zc, ms, ck, b, sz)))
     if tier == "thorough":
+        # valgrind memcheck on the plain io_uring build (uninitialised reads in the buffer-ring / send-pool code are invisible to ASan)
+        zc, ms, ck, b, sz = cfgs[3]
+        out.append(dict(bin="c20", flavour="uring", valgrind=True, args=["--tier", "quick", "--shard", "0/1", "--zc", zc, "--ms", ms, "--cork", ck, "--bufs", b, "--bufsize", sz],
+                        timeout=3600, name="c20-memcheck-uring"))
         zc, ms, ck, b, sz = cfgs[1]
         out.append(dict(bin="c20", flavour="asan_uring", args=["--tier", "quick", "--shard", "0/1", "--zc", zc, "--ms", ms, "--cork", ck, "--bufs", b, "--bufsize", sz],
                         timeout=3000, name="c20-asan-uring"))
